@@ -21,3 +21,4 @@ Definition c17case_ok (c : c17case) : bool :=
 Definition mismatches (l : list c17case) : list N := failing c17case_ok c17case_id l.
 
 Definition T (i : nat) (l : bytes) : tagged := (i, l).
+Definition W (closed : bool) (c : conn) : bool * conn := (closed, c).
